@@ -506,18 +506,24 @@ def parse_delimited_sequence(
                 before.append(empty_line)
 
     prev_content: Node | None = None
+    # A comment behind an own-line comment on the same line stays behind it.
+    after_own_line_comment = False
     for child in content_nodes:
         if child.type == "comment":
-            if can_inline_comment(prev_content, child, items):
+            if not after_own_line_comment and can_inline_comment(
+                prev_content, child, items
+            ):
                 push_gap(prev_content, child)
                 comment_expr = Comment.from_cst(child)
                 comment_expr.inline = True
                 attach_inline_comment(items[-1], comment_expr)
             else:
                 append_comment_between(before, parent, prev_content, child)
+                after_own_line_comment = True
             prev_content = child
             continue
 
+        after_own_line_comment = False
         push_gap(prev_content, child)
         item = parse_item(child, before)
         if item is not None:
